@@ -1613,6 +1613,10 @@ func (s *Sim) drainBatchQuery(o *Op, b *WB, q *ecs.Query, affected []int, next m
 				q.Close()
 				return finding(CatBatchQuery, "%s: query of %s: comp %d at #%d present=%v, want %v", b.Name, o.Describe(), c, ord, !has, has)
 			}
+			if p != b.W.Get(h, b.IDs[c]) {
+				q.Close()
+				return finding(CatBatchQuery, "%s: query of %s: Get(comp %d) at #%d is not the entity's component storage (World.Get differs)", b.Name, o.Describe(), c, ord)
+			}
 			if !has {
 				continue
 			}
